@@ -8,6 +8,7 @@ and sort_expr=, batched and unbatched; the displayed order is compared with the 
 P2: every departure (and a sample) is validated by TLC (ObsSort) against the clauses; only a
 failing clause, an exception, or a modified caller's list is a violation.
 """
+import collections
 import datetime
 import decimal
 import itertools
@@ -148,7 +149,12 @@ def build(b, typ, mapping, isort_pairs):
                 d['k%d' % j] = None
             elif k['p'] == 'val':
                 d['k%d' % j] = keyval(k, typ)
-        if mapping:
+        if mapping == 'dd':
+            # a mapping with a __missing__ hook: looking a key up must not create it or invent a value
+            dd = collections.defaultdict(lambda typ=typ: keyval(ATOMS[0], 'int' if typ == 'callable' else typ))
+            dd.update(d)
+            seq.append(dd)
+        elif mapping:
             seq.append(d)
         else:
             o = El()
@@ -187,6 +193,7 @@ def observe(b, typ, mapping, variant):
     pairs = isort and variant % 2 == 1
     seq = build(b, typ, mapping, pairs)
     snapshot = list(seq)
+    deep = [dict(x) if isinstance(x, dict) else None for x in seq]
     sa = sort_attr(b['spec'])
     opts = ''
     if b['spec']:
@@ -227,6 +234,9 @@ def observe(b, typ, mapping, variant):
     if len(seq) != len(snapshot) or any(a is not c for a, c in zip(seq, snapshot)):
         ok = 0
         err = 'caller sequence modified'
+    elif any(isinstance(x, dict) and dict(x) != c for x, c in zip(seq, deep)):
+        ok = 0
+        err = 'caller element modified'
     return {'ok': ok, 'order': order, 'err': err, 'src': src, 'typ': typ}
 
 
@@ -234,7 +244,7 @@ def replay(item):
     i, b = item
     res = []
     for typ in types_for(b):
-        for mapping in ((False, True) if not any(s['a'] == 0 for s in b['spec']) else (False,)):
+        for mapping in ((False, True, 'dd') if not any(s['a'] == 0 for s in b['spec']) else (False,)):
             variant = (i + len(res)) % 4
             o = observe(b, typ, mapping, variant)
             o['mapping'] = mapping
